@@ -4,7 +4,7 @@ from checks import rtcommon
 
 def run(ctx):
     args = (["--n", "2500", "--maxdim", "24", "--exh", "1"] if ctx.quick
-            else ["--n", "40000", "--maxdim", "64", "--exh", "2", "--big"])
+            else ["--n", "160000", "--maxdim", "64", "--exh", "2", "--big"])
     return rtcommon.run_contract(
         ctx, "c02", args, class_keys=("api", "pred", "p", "c", "cls"),
         rule="scenario = lossless.Encode(pred 0..7) or lossless14sv1.Encode followed by the matching Decode; exhaustive: every "
